@@ -167,3 +167,44 @@ get := p[1]
 	}
 	verifrt.Reach("done")
 }
+
+// HarnessC02ClosuresAcrossPieces: a closure made by a function defined in an
+// earlier piece of an incremental session (one compiler, one VM, as the REPL
+// drives them) refers to the top-level variables themselves, also after later
+// pieces added more globals and reassigned them.
+func HarnessC02ClosuresAcrossPieces() {
+	a, b := verifrt.Int64(), verifrt.Int64()
+	s := newReplSession((&scriptEnv{}).addInt("a", a).addInt("b", b))
+	pieces := []string{
+		"x := a",
+		"mk := func() { return func() { x = x + 10; return x } }",
+		"g := mk()",
+		"y := b",
+		"r1 := g()",
+		"x = x + y",
+		"r2 := g()",
+	}
+	piece := ""
+	for i, st := range pieces {
+		if piece == "" {
+			piece = st
+		} else {
+			piece += "\n" + st
+		}
+		if i == len(pieces)-1 || verifrt.Bool() {
+			_, err, stage := s.eval(piece)
+			verifrt.Assert(err == nil, "piece-runs:"+stage)
+			if err != nil {
+				return
+			}
+			piece = ""
+		}
+	}
+	verifrt.Reach("session-done")
+	r1, ok1 := s.get("r1")
+	r2, ok2 := s.get("r2")
+	x, okx := s.get("x")
+	verifrt.Assert(ok1 && r1 == a+10, "closure-reads-and-writes-the-top-level-variable")
+	verifrt.Assert(ok2 && r2 == a+10+b+10, "closure-sees-later-reassignment-of-the-top-level-variable")
+	verifrt.Assert(okx && x == a+10+b+10, "top-level-variable-sees-the-closure-write")
+}
